@@ -467,7 +467,7 @@ def check_prog_batch(engines, batch, tag, env=None):
         plan = "".join(pl[o % len(pl)] for _, pl in batch)
         import time as _t
         t0 = _t.time()
-        rc, lines, err = run_iface(engines, text, plan, f"{tag}_{o}", env)
+        rc, lines, err = run_iface(engines, text, plan, f"{tag}_{o}", env, timeout=45)
         if _t.time() - t0 > 30:
             ck.log(f"slow harness run {tag}_{o} {engines}: {_t.time() - t0:.0f}s rc={rc} programs {[P.name for P, _ in batch]}")
         res = [l for l in lines if l[:2] in ("P ", "H ", "W ", "A ") and not l.startswith("H engines")]
@@ -476,7 +476,7 @@ def check_prog_batch(engines, batch, tag, env=None):
         if rc != 0 or bad_lines(lines) or len(res) != nexp:
             # isolate per program
             for P, pl in batch:
-                rc1, l1, e1 = run_iface(engines, P.text(), pl[o % len(pl)], f"{tag}_{o}_iso", env)
+                rc1, l1, e1 = run_iface(engines, P.text(), pl[o % len(pl)], f"{tag}_{o}_iso", env, timeout=12)
                 r1 = [l for l in l1 if l[:2] in ("P ", "H ", "W ", "A ") and not l.startswith("H engines")]
                 n1 = nplan(pl[o % len(pl)]) + pl[o % len(pl)].count("addrs\n") * (len(engines) - 1)
                 if rc1 != 0 or bad_lines(l1) or len(r1) != n1:
@@ -508,8 +508,9 @@ def classify_prog_failure(f):
         return "c01"
     if any(l.startswith("ORDER-DEPENDENT") for l in f["lines"]):
         return "c03"
-    rc, lines, err = run_iface(GEN_ONLY, f["prog"].text(), f["plan"], "classify", {"C03_TRASH": "none"})
+    rc, lines, err = run_iface(GEN_ONLY, f["prog"].text(), f["plan"], f"classify_{f['prog'].name}", {"C03_TRASH": "none"}, timeout=12)
     if rc != 0 or bad_lines(lines):
+        f["gen_only"] = (bad_lines(lines) + [f"rc={rc} {err.strip()[-100:]}"])[:2]
         return "c01"
     return "c03"
 
@@ -596,8 +597,14 @@ def stage_programs():
         cls = classify_prog_failure(f)
         classes[cls] += 1
         if cls == "c01":
-            if len(c01_samples) < 3:
-                c01_samples.append({"program": f["prog"].name, "engines": f["engines"], "lines": f["lines"][:2], "err": f["err"][-160:]})
+            if len(c01_samples) < 3 or os.environ.get("C03_KEEP_C01"):
+                c01_samples.append({"program": f["prog"].name, "engines": f["engines"], "lines": f["lines"][:2], "err": f["err"][-160:],
+                                    "with_eager_gen_only": f.get("gen_only")})
+                if os.environ.get("C03_KEEP_C01"):
+                    with open(os.path.join(VERIF, ".cache", f"c03_c01class_{f['prog'].name}.mir"), "w") as fo:
+                        fo.write(f["prog"].text())
+                    with open(os.path.join(VERIF, ".cache", f"c03_c01class_{f['prog'].name}.plan"), "w") as fo:
+                        fo.write(f["plan"])
             continue
         key = (tuple(f["engines"]), str([re.sub(r"[0-9a-f]{6,}", "#", l)[:60] for l in f["lines"][:1]]))
         if key in seen_sig or reported >= 4:
